@@ -25,6 +25,15 @@ Oracle (artefact model on top of mc.models.text_spec):
            every event path lies inside tmp_dir, ref/ and act/ are unchanged
   binary fail -> reported offset = first differing index (or the shorter
            length), reported lengths exact.
+Third round: the actual of the string entry point also as list / tuple of
+lines (text.split('\n'): the raw actual file must hold the same bytes as for
+the string); the post-processed pair is compared byte-wise (a line with the
+same text on both sides may not differ in its terminator - asserted where
+tdda's own comparison, probed per worker, does not count a final newline as a
+difference); layer "config": class-level configuration calls between instance
+creations (set_defaults(tmp_dir=), set_default_data_location, instance
+set_data_location), every assertion judged against the directory configured
+for ITS instance.
 Pairs the text model leaves unspecified (or holds to be passes that tdda
 fails - C04's business) are checked for everything except the content of the
 post-processed pair.
@@ -61,6 +70,7 @@ POINTS_LONG = [TA.option_point(),
                TA.option_point(remove_lines=['row 1']),
                TA.option_point(preprocess='drop_eacute'),
                TA.option_point(max_permutation_cases=2)]
+FORMS_ALPHA2 = ['a', 'b', 'a1']
 SLICE_Q = ['b', 'a', 'X a', 'a1']
 SLICE_T = ['b', 'a', 'X a', 'a1', 'a ']
 
@@ -104,6 +114,16 @@ def hist_ops(tier):
 
 
 
+# --- E3 configuration layer: class-level configuration calls between instance
+# creations, assertions through the instance created last -------------------
+CONF_OPS = ['new', 'tmp:A', 'tmp:B', 'loc:R1', 'loc:R2', 'iloc:R2',
+            'use:string-fail', 'use:file-fail', 'use:string-pass',
+            'use:binary-fail']
+CONF_USES = [o for o in CONF_OPS if o.startswith('use:')]
+CONF_FAIL = (['a', 'z', 'a1'], ['a', 'y', 'a22'])
+CONF_POINT = TA.option_point(ignore_patterns=[r'\d+'])
+
+
 CMD = re.compile(r'^(?P<head>[^\n]*)\n {4}(?P<cmd>diff|fc|cp|copy) '
                  r'(?P<a>\S+) (?P<b>\S+)[ ]*$', re.M)
 BININFO = re.compile(r'First difference at byte offset (\d+), '
@@ -130,6 +150,15 @@ def split_lines(text):
     if xs and xs[-1] == '':
         xs = xs[:-1]
     return xs
+
+
+def split_keepends(text):
+    """Lines with their '\\n' kept; a last line without one stays bare."""
+    xs = text.split('\n')
+    out = [x + '\n' for x in xs[:-1]]
+    if xs[-1] != '':
+        out.append(xs[-1])
+    return out
 
 
 def clip(x, n=300):
@@ -195,6 +224,15 @@ class C15(Check):
             '3 lines of 5000/100000 characters with one of 9 named '
             'deviations under 7 option points; operation histories of length 2 (thorough 3) over 45 (thorough 65) '
             'operations against one never-cleaned tmp_dir; '
+            'configuration histories = every sequence of 3 (thorough 4) '
+            'of 10 operations (new instance, tmp_dir A/B, class data location '
+            'R1/R2, instance data location, 4 assertions) + a final '
+            'assertion, on ReferenceTest and on a fresh subclass; the actual '
+            'of the string entry point also as list / tuple of lines '
+            '(everywhere in identical / missing, under the <= 1-option '
+            'points elsewhere); forms = final newline absent / present / '
+            'doubled / CRLF on the actual x present / absent on the '
+            'reference; '
             'missing-reference cases per entry '
             'point.  Non-trivial = the case contains a failing assertion '
             '(artefact clauses exercised); for text cases additionally a '
@@ -208,6 +246,14 @@ class C15(Check):
         'a side); its content is checked only where the text model gives a '
         'definite failure and both sides keep the same number of lines',
         'paths contain no blanks (commands are parsed as "diff A B")',
+        'an instance made before the latest set_defaults(tmp_dir=) / '
+        'set_default_data_location may use the older or the newer setting '
+        '(statement silent); one made after it must use the newer one; an '
+        'instance-level set_data_location wins over class defaults',
+        'whether a final newline is a difference is a gray zone of the text '
+        'model: the byte-wise clause on the post-processed pair is asserted '
+        'only where tdda itself passes "a" against "a" with these endings '
+        'and both sides end in a non-empty line',
         'gray zones of the text model (see C04) are inherited',
     ]
 
@@ -237,6 +283,15 @@ class C15(Check):
                              'passing contents, stale files), oracle on the '
                              'last assertion + comparison with a fresh '
                              'tmp_dir'))
+        L.append(('config', 'E3: every sequence of 3 (thorough 4) operations '
+                            'out of {new instance, set_defaults(tmp_dir=A|B), '
+                            'set_default_data_location(R1|R2), '
+                            'set_data_location(R2), string / file / binary '
+                            'assertion through the newest instance} followed '
+                            'by one assertion, on ReferenceTest itself and '
+                            'on a fresh subclass: artefacts go to the '
+                            'directory configured for that instance, the '
+                            'other directory stays untouched'))
         L.append(('seq3-slice', 'length 3 against length 2..3 over a 4-line '
                                 '(thorough 5-line) alphabet, remove_lines '
                                 'set (index mapping needs >= 3 lines)'))
@@ -248,7 +303,7 @@ class C15(Check):
         pts = 't' if tier == 'thorough' else 'q'
         if layer == 'identical':
             for s in TA.sequences(TA.LAMBDA, 3 if tier == 'thorough' else 2):
-                yield {'k': 'text', 'a': s, 'e': s, 'pts': pts}
+                yield {'k': 'text', 'a': s, 'e': s, 'pts': pts, 'lf': 'all'}
         elif layer == 'binary':
             bs = list(TA.byte_strings(3))
             for a in bs:
@@ -269,11 +324,12 @@ class C15(Check):
         elif layer == 'long':
             for n in TA.LONG_SIZES:
                 for dev in TA.LONG_DEVIATIONS:
-                    yield {'k': 'text', 'gen': [n, dev, 0], 'pts': 'long'}
+                    yield {'k': 'text', 'gen': [n, dev, 0], 'pts': 'long',
+                           'lf': 'few'}
             for width in (5000, 100000):
                 for dev in TA.LONG_DEVIATIONS:
                     yield {'k': 'text', 'gen': [3, dev, width],
-                           'pts': 'long-nopattern'}
+                           'pts': 'long-nopattern', 'lf': 'few'}
         elif layer == 'history':
             depth = 3 if tier == 'thorough' else 2
             every = hist_ops(tier)
@@ -282,6 +338,13 @@ class C15(Check):
                     continue
                 for prefix in itertools.product(every, repeat=depth - 1):
                     yield {'k': 'hist', 'ops': list(prefix) + [last]}
+        elif layer == 'config':
+            depth = 4 if tier == 'thorough' else 3
+            for target in ('sub', 'base'):
+                for prefix in itertools.product(CONF_OPS, repeat=depth):
+                    for last in CONF_USES:
+                        yield {'k': 'conf', 'target': target,
+                               'ops': list(prefix) + [last]}
         elif layer == 'missing':
             for s in TA.sequences(TA.LAMBDA, 2):
                 yield {'k': 'missing', 'a': s}
@@ -289,22 +352,37 @@ class C15(Check):
             for a in TA.sequences(TA.LAMBDA, 2):
                 for e in TA.sequences(TA.LAMBDA, 2):
                     if a != e:
-                        yield {'k': 'text', 'a': a, 'e': e, 'pts': pts}
+                        yield {'k': 'text', 'a': a, 'e': e, 'pts': pts,
+                               'lf': 'all' if tier == 'thorough' else 'list'}
         elif layer == 'forms':
             alpha = ['a', 'é', '', 'b'] if tier == 'thorough' \
                 else ['a', 'é', '']
             for a in TA.sequences(alpha, 2):
                 for e in TA.sequences(alpha, 2):
-                    for fa in (['\n', 0], ['\n', 2], ['\r\n', 1]):
+                    for fa in (['\n', 0], ['\n', 2], ['\r\n', 1],
+                               ['\n', 1]):
                         for fe in (['\n', 1], ['\n', 0]):
+                            if fa == ['\n', 1] and fe == ['\n', 1]:
+                                continue        # layers identical / seq2
                             yield {'k': 'text', 'a': a, 'e': e, 'pts': 'q',
-                                   'fa': fa, 'fe': fe}
+                                   'fa': fa, 'fe': fe,
+                                   'lf': 'all' if tier == 'thorough'
+                                   else 'few'}
+            # final newline present on one side only / on neither / doubled,
+            # over lines the removal and pattern options act on
+            for a in TA.sequences(FORMS_ALPHA2, 2):
+                for e in TA.sequences(FORMS_ALPHA2, 2):
+                    for (fa, fe) in ((0, 1), (1, 0), (2, 0), (0, 0)):
+                        yield {'k': 'text', 'a': a, 'e': e, 'pts': 'q',
+                               'fa': ['\n', fa], 'fe': ['\n', fe],
+                               'lf': 'few'}
         elif layer == 'seq3-slice':
             alpha = SLICE_T if tier == 'thorough' else SLICE_Q
             for a in TA.sequences(alpha, 3, 2):
                 for e in TA.sequences(alpha, 3, 2):
                     if a != e and max(len(a), len(e)) == 3:
-                        yield {'k': 'text', 'a': a, 'e': e, 'pts': 'slice'}
+                        yield {'k': 'text', 'a': a, 'e': e, 'pts': 'slice',
+                               'lf': 'few'}
         elif layer == 'seq3':
             pts = 'q'
             for a in TA.sequences(TA.LAMBDA, 3, 3):
@@ -318,6 +396,7 @@ class C15(Check):
         self.box = TA.TextSandbox('c15_')
         self.fc = FilesComparison(verbose=False, tmp_dir=self.box.tmp)
         self.probe_cache = {}
+        self.newline_probe = self.probe_final_newline()
         FSLOG.install()
         self.sets = {'q': POINTS_Q, 't': POINTS_T, 'slice': POINTS_SLICE,
                      'long': POINTS_LONG,
@@ -390,7 +469,8 @@ class C15(Check):
                         (k, v) for k, v in points[i].items()
                         if v != TA.DEFAULT_POINT[k])
                 d['other_option_points_in_this_case'] = len(byp) - 1
-                if points is None or what.startswith('raw-actual'):
+                if points is None or what.startswith(
+                        ('raw-actual', 'postproc:same-line-differs')):
                     # the cause is in the name; the options are incidental
                     sig = '%s:%s' % (what, routes)
                 else:
@@ -407,6 +487,8 @@ class C15(Check):
             return self.run_binary(case)
         if case['k'] == 'hist':
             return self.run_history(case)
+        if case['k'] == 'conf':
+            return self.run_config(case)
         return self.run_missing(case)
 
     # ----------------------------------------------------------------- text
@@ -433,14 +515,27 @@ class C15(Check):
         bad = {}
         seen = set()
 
+        lf = case.get('lf')
+        if '\r' in ta:
+            lf = None       # a list of lines has no line terminators
         for i, p in enumerate(points):
             kw = TA.kwargs_of(p)
             m = TS.evaluate_texts(ta, te, model_opts(p))
             if m.verdict == TS.UNSPEC:
                 R.unspec += 1
-            for route, method, arg0 in (
-                    ('string', 'assertStringCorrect', ta),
-                    ('file', 'assertTextFileCorrect', act)):
+            routes = [('string', 'assertStringCorrect', ta, m),
+                      ('file', 'assertTextFileCorrect', act, m)]
+            if lf == 'all' or (lf and '+' not in TA.option_label(p)):
+                # the FORM of the actual: the same text as the list / tuple
+                # text.split('\n') (a new object for every call)
+                ml = TS.evaluate_lines_text(ta.split('\n'), te,
+                                            model_opts(p))
+                routes.append(('list', 'assertStringCorrect',
+                               ta.split('\n'), ml))
+                if lf != 'list':
+                    routes.append(('tuple', 'assertStringCorrect',
+                                   tuple(ta.split('\n')), ml))
+            for route, method, arg0, m in routes:
                 rk, info, events, left = self.observed_call(
                     method, arg0, ref, **kw)
                 R.ev()
@@ -530,13 +625,31 @@ class C15(Check):
             add('postproc:pair-not-in-tmp_dir', {'command': c})
         if not (os.path.isfile(c['a']) and os.path.isfile(c['b'])):
             return
-        if m.verdict != TS.MUST_FAIL or r is None:
-            return
         try:
-            pa = split_lines(box.read(c['a']).decode('utf-8'))
-            pe = split_lines(box.read(c['b']).decode('utf-8'))
+            ka = split_keepends(box.read(c['a']).decode('utf-8'))
+            ke = split_keepends(box.read(c['b']).decode('utf-8'))
         except UnicodeDecodeError as ex:
             add('postproc:not-utf8', {'error': str(ex)})
+            return
+        pa = [x[:-1] if x.endswith('\n') else x for x in ka]
+        pe = [x[:-1] if x.endswith('\n') else x for x in ke]
+        # byte-wise view (what the suggested diff command sees): a pair of
+        # lines with the same text may not differ in its line terminator.
+        # Whether a final terminator counts as a difference is a gray zone
+        # of the text model, so the clause is asserted only where tdda's own
+        # comparison (probed once per worker through the same entry point)
+        # does not count it, and only for sides that end in a non-empty
+        # line followed by at most one terminator.
+        if len(ka) == len(ke) and self.final_newline_is_no_difference(
+                route, ta, box.read(ref).decode('utf-8'), p):
+            ends = [(x, y) for x, y in zip(ka, ke)
+                    if x != y and x.rstrip('\n') == y.rstrip('\n')]
+            if ends:
+                add('postproc:same-line-differs-in-its-terminator',
+                    {'pairs': clip(ends[:4]),
+                     'post_actual_tail': clip(ka[-3:]),
+                     'post_expected_tail': clip(ke[-3:])})
+        if m.verdict != TS.MUST_FAIL or r is None:
             return
         want = m.unexcused_pairs()
         if want is None:
@@ -572,6 +685,49 @@ class C15(Check):
             add(what, {'files_differ_on': clip(shown[:8]),
                        'model_unexcused': clip(want[:8]),
                        'post_actual': clip(pa[-6:]), 'post_expected': clip(pe[-6:])})
+
+    @staticmethod
+    def plain_end(text, p):
+        """The text ends in a non-empty (also when stripped) line followed
+        by at most one '\\n' - also after the preprocess function of p."""
+        if '\r' in text:
+            return False
+        s = text[:-1] if text.endswith('\n') else text
+        lines = s.split('\n')
+        if p['preprocess']:
+            lines = TA.PREPROCESS_FUNCTIONS[p['preprocess']](lines)
+        return bool(lines) and lines[-1].strip() != ''
+
+    def final_newline_is_no_difference(self, route, ta, te, p):
+        if not (self.plain_end(ta, p) and self.plain_end(te, p)):
+            return False
+        return self.newline_probe.get(
+            (route, ta.endswith('\n'), te.endswith('\n')), False)
+
+    def probe_final_newline(self):
+        """{(route, actual ends in newline, reference does): tdda passes
+        'a' against 'a' with these endings}."""
+        box = self.box
+        d = os.path.join(box.root, 'probe')
+        os.mkdir(d)
+        out = {}
+        for a_nl in (False, True):
+            for e_nl in (False, True):
+                ta = 'a\n' if a_nl else 'a'
+                ref = os.path.join(d, 'ref.txt')
+                act = os.path.join(d, 'out.txt')
+                box.write(ref, 'a\n' if e_nl else 'a')
+                box.write(act, ta)
+                for route, method, arg0 in (
+                        ('string', 'assertStringCorrect', ta),
+                        ('list', 'assertStringCorrect', ta.split('\n')),
+                        ('tuple', 'assertStringCorrect',
+                         tuple(ta.split('\n'))),
+                        ('file', 'assertTextFileCorrect', act)):
+                    rk, info = box.call(method, arg0, ref)
+                    out[(route, a_nl, e_nl)] = rk == 'pass'
+                    box.clean(box.tmp)
+        return out
 
     def tdda_excuses(self, a, e, p):
         """Does tdda's own comparison of just this pair of (already
@@ -866,6 +1022,195 @@ class C15(Check):
         box.clean(box.tmp)
         return R
 
+    # -------------------------------------------------------- configuration
+    def run_config(self, case):
+        """Class-level configuration between instance creations.  Every
+        assertion of the history is judged: a failing one may write only
+        into the tmp_dir configured for its instance (the class setting when
+        the instance was made; if the class setting changed afterwards
+        either is accepted), names existing files there, holds the actual
+        string exactly; a passing one writes nothing; the other directory
+        never changes."""
+        R = Res()
+        box = self.box
+        RT = box.RT
+        saved = (RT.tmp_dir, RT.verbose, dict(RT.default_data_locations))
+        cls = RT if case['target'] == 'base' else \
+            type('ReferenceTestSub', (RT,), {})
+        dirs = {'A': box.tmp, 'B': box.tmp2}
+        locs = {'R1': box.ref, 'R2': box.ref2}
+        box.clean(box.ref, box.ref2, box.act, box.tmp, box.tmp2)
+        a, e = CONF_FAIL
+        ta, te = TA.content(a), TA.content(e)
+        for d in (box.ref, box.ref2):
+            box.write(os.path.join(d, 'ref.txt'), te)
+            box.write(os.path.join(d, 'same.txt'), ta)
+            box.write(os.path.join(d, 'ref.bin'), b'ab\x00')
+        act = os.path.join(box.act, 'out.txt')
+        actb = os.path.join(box.act, 'out.bin')
+        box.write(act, ta)
+        box.write(actb, b'ab\xff')
+        callers = (snapshot(box.ref), snapshot(box.ref2), snapshot(box.act))
+        kw = TA.kwargs_of(CONF_POINT)
+        bad = {}
+        trace = []
+        st = {'cls_tmp': 'A', 'cls_loc': None, 'inst': None,
+              'inst_tmp': None, 'inst_loc': None, 'own_loc': False}
+
+        def make():
+            st['inst'] = cls(TA._assert_fn)
+            st['inst_tmp'] = st['cls_tmp']
+            st['inst_loc'] = st['cls_loc']
+            st['own_loc'] = False
+
+        try:
+            cls.set_defaults(tmp_dir=dirs['A'])
+            for k, op in enumerate(case['ops']):
+                R.transitions += 1
+                if op == 'new':
+                    make()
+                elif op.startswith('tmp:'):
+                    cls.set_defaults(tmp_dir=dirs[op[4:]])
+                    st['cls_tmp'] = op[4:]
+                elif op.startswith('loc:'):
+                    cls.set_default_data_location(locs[op[4:]])
+                    st['cls_loc'] = op[4:]
+                elif op.startswith('iloc:'):
+                    if st['inst'] is not None:
+                        st['inst'].set_data_location(locs[op[5:]])
+                        st['inst_loc'] = op[5:]
+                        st['own_loc'] = True
+                if not op.startswith('use:'):
+                    trace.append(op)
+                    continue
+                if st['inst'] is None:
+                    make()
+                route, want = op[4:].split('-')
+                # where this instance may write / look
+                tmps = set([st['inst_tmp'], st['cls_tmp']])
+                if st['inst_loc'] is None:
+                    refdirs = None              # absolute reference path
+                elif st['own_loc']:
+                    refdirs = set([st['inst_loc']])
+                else:
+                    refdirs = set([st['inst_loc'], st['cls_loc']])
+                name = {'string': 'ref.txt' if want == 'fail'
+                        else 'same.txt', 'file': 'ref.txt',
+                        'binary': 'ref.bin'}[route]
+                refarg = name if refdirs else os.path.join(box.ref, name)
+                refs = [os.path.join(locs[x], name) for x in sorted(refdirs)] \
+                    if refdirs else [refarg]
+                before = dict((x, snapshot(dirs[x])) for x in dirs)
+                with FSLOG.record() as events:
+                    if route == 'string':
+                        rk, info = box.call_on(st['inst'],
+                                               'assertStringCorrect', ta,
+                                               refarg, **kw)
+                    elif route == 'file':
+                        rk, info = box.call_on(st['inst'],
+                                               'assertTextFileCorrect', act,
+                                               refarg, **kw)
+                    else:
+                        rk, info = box.call_on(st['inst'],
+                                               'assertBinaryFileCorrect',
+                                               actb, refarg)
+                events = list(events)
+                R.ev()
+                trace.append('%s:%s' % (op, rk))
+                changed = [x for x in sorted(dirs)
+                           if snapshot(dirs[x]) != before[x]]
+
+                def add(what, detail, _r=route, _k=k):
+                    bad.setdefault((what, _r), dict(
+                        detail, step=_k, history=list(trace),
+                        configured_tmp_dir=sorted(tmps)))
+
+                if rk == 'error':
+                    add('internal-error:%s' % type(info).__name__,
+                        {'exception': repr(info)[:300]})
+                elif rk != want:
+                    add('unexpected-verdict', {'got': rk, 'expected': want})
+                elif rk == 'pass':
+                    if events or changed:
+                        add('passing-assertion-writes',
+                            {'events': events[:6], 'changed': changed})
+                else:
+                    used = set(x for x in dirs for ev in events
+                               if inside(ev[1], dirs[x])) | set(changed)
+                    stray = [ev for ev in events
+                             if not any(inside(ev[1], dirs[x]) for x in dirs)]
+                    if stray:
+                        add('write-outside-tmp_dir', {'events': stray[:6]})
+                    if used - tmps:
+                        add('write-into-a-tmp_dir-not-configured-for-the-'
+                            'instance', {'written': sorted(used),
+                                         'events': events[:6]})
+                    elif len(used) > 1:
+                        add('artefacts-spread-over-two-directories',
+                            {'written': sorted(used)})
+                    cmds = parse_commands(info)
+                    if not cmds:
+                        add('no-comparison-command',
+                            {'message': (info or '')[:400]})
+                    for c in cmds:
+                        gone = [q for q in (c['a'], c['b'])
+                                if not os.path.isfile(q)]
+                        if gone:
+                            add('command-names-missing-file',
+                                {'command': c, 'missing': gone})
+                        for q in (c['a'], c['b']):
+                            if c['post'] or (q == c['a']
+                                             and route == 'string'):
+                                if not any(inside(q, dirs[x])
+                                           for x in tmps):
+                                    add('artefact-not-in-the-configured-'
+                                        'tmp_dir', {'command': c})
+                    raw = [c for c in cmds if not c['post']]
+                    if raw:
+                        c = raw[0]
+                        if os.path.normpath(c['b']) not in refs:
+                            add('command-reference-side-is-not-the-'
+                                'configured-reference',
+                                {'command': c, 'accepted': refs})
+                        if route == 'string' and os.path.isfile(c['a']) \
+                                and box.read(c['a']) != ta.encode('utf-8'):
+                            add('raw-actual-not-exact',
+                                {'file_content': box.read(c['a']).decode(
+                                    'utf-8', 'replace'),
+                                 'actual_string': ta})
+                        if route != 'string' and os.path.normpath(
+                                c['a']) != (act if route == 'file'
+                                            else actb):
+                            add('command-actual-side-is-not-the-actual-'
+                                'file', {'command': c})
+                    if route != 'binary' and not [c for c in cmds
+                                                  if c['post']]:
+                        add('postproc:pair-missing-though-exclusion-took-'
+                            'effect', {})
+                R.out('config:%s:%s:%s' % (
+                    route, rk, 'instance-older-than-setting'
+                    if len(tmps) > 1 else 'settled'))
+                box.clean(box.tmp, box.tmp2)
+        finally:
+            RT.tmp_dir, RT.verbose = saved[0], saved[1]
+            RT.default_data_locations.clear()
+            RT.default_data_locations.update(saved[2])
+        if callers != (snapshot(box.ref), snapshot(box.ref2),
+                       snapshot(box.act)):
+            R.viol('caller-files-changed:config', 'nothing-outside-tmp_dir',
+                   {'history': trace})
+        R.states = len(case['ops'])
+        R.nontrivial = any(not o.startswith('use:') and o != 'new'
+                           for o in case['ops']) and \
+            case['ops'][-1].endswith('-fail')
+        for (what, route) in sorted(bad):
+            d = dict(bad[(what, route)])
+            d['target'] = 'ReferenceTest' if case['target'] == 'base' \
+                else 'a fresh subclass of ReferenceTest'
+            R.viol('config:%s:%s' % (what, route), what.split(':')[0], d,
+                   sub={'what': what, 'route': route})
+        return R
+
     # -------------------------------------------------------------- missing
     def run_missing(self, case):
         """Reference file absent: the message must offer the documented
@@ -883,6 +1228,8 @@ class C15(Check):
         bad = {}
         for route, method, arg0 in (
                 ('string', 'assertStringCorrect', ta),
+                ('list', 'assertStringCorrect', ta.split('\n')),
+                ('tuple', 'assertStringCorrect', tuple(ta.split('\n'))),
                 ('file', 'assertTextFileCorrect', act),
                 ('binary', 'assertBinaryFileCorrect', act)):
             rk, info, events, left = self.observed_call(method, arg0, ref)
@@ -907,7 +1254,7 @@ class C15(Check):
                 if os.path.normpath(c['b']) != ref:
                     add('command-target-is-not-the-reference',
                         {'command': c})
-                if route == 'string':
+                if route in ('string', 'list', 'tuple'):
                     if not inside(c['a'], box.tmp):
                         add('actual-string-not-written-to-tmp_dir',
                             {'command': c})
